@@ -50,6 +50,7 @@ type Contract struct {
 	Unordered map[int]string // map-range ordinal -> the only entry point from which the function may be reached
 	UsesOnly []UsesOnly
 	Between  []BetweenClause
+	Paired   []PairedClause
 	Sites    []SiteClause
 	Bound    bool
 	Terminates bool
@@ -78,7 +79,7 @@ type SpecFunc struct {
 	Opaque bool
 }
 
-var kwRe = regexp.MustCompile(`^(func|spec|readers|writers|callers|between|safederef|preserved|internal|inline|eosexit|requires|ensures|decreases|loop|safe|modular|terminates|witness|witnessgo|unordered|usesonly|mapwrite|callsite|nobody|sitesonly|end)\b`)
+var kwRe = regexp.MustCompile(`^(func|spec|readers|writers|callers|between|paired|safederef|preserved|internal|inline|eosexit|requires|ensures|decreases|loop|safe|modular|terminates|witness|witnessgo|unordered|usesonly|mapwrite|callsite|nobody|sitesonly|end)\b`)
 
 func (e *Engine) loadContracts() error {
 	e.contracts = map[string]*Contract{}
@@ -276,6 +277,11 @@ func (e *Engine) parseContractFile(file, pkgPath, data string) error {
 					return fmt.Errorf("%s:%d: %v in %q", file, l.line, err, text)
 				}
 				cur.Sites = append(cur.Sites, SiteClause{Kind: kw, Target: fields[1], Expr: ex, Tags: tags, Text: text})
+			}
+		case "paired":
+			// paired[tags] <A> <B>: every call of A is followed at once by `defer B` (see between.go)
+			if len(fields) >= 3 {
+				cur.Paired = append(cur.Paired, PairedClause{A: fields[1], B: fields[2], Tags: tags})
 			}
 		case "between":
 			// between[tags] <A> <B> [allow f,g] [state pkg,pkg]: see between.go
